@@ -35,7 +35,7 @@ for area in (sys.argv[1:] or AREAS):
         if f.endswith(".diff"):
             jobs.append((area, os.path.join(base, f)))
 res = {}
-with concurrent.futures.ThreadPoolExecutor(max_workers=3) as ex:
+with concurrent.futures.ThreadPoolExecutor(max_workers=int(os.environ.get("BENIGN_WORKERS", "3"))) as ex:
     for area, patch, out in ex.map(run, jobs):
         res["%s/%s" % (area, os.path.basename(patch))] = out
         bad = {c: v for c, v in out.items() if isinstance(v, dict) and v.get("exit") != 0}
